@@ -95,9 +95,15 @@ C12NBestOK == /\ Clause("nbest-non-increasing", NonIncreasing([i \in DOMAIN Ev.i
                               /\ ("postfirst" \in DOMAIN Ev.after) =>
                                     LET P == Ev.after.postfirst
                                         Eps == 4 * (Len(Ev.after.links) + 2)
-                                    IN /\ Clause("posterior-right-after-nbest-le-1", P.best <= Eps /\ P.maxlink <= Eps)
-                                       /\ Clause("posterior-right-after-nbest-forward-equals-backward", Abs(P.norm - P.bwd) <= Eps)
+                                    IN /\ Clause("post-after-nbest-le-1", P.best <= Eps /\ P.maxlink <= Eps)
+                                       /\ Clause("post-after-nbest-fwd-eq-bwd", Abs(P.norm - P.bwd) <= Eps)
                               /\ C12LatOK(LL, Ev.after, "after-nbest:")
+                              /\ ("postwalk" \in DOMAIN Ev.after /\ Ev.after.hasbest) =>
+                                    LET P == Ev.after.postwalk
+                                        Eps == 4 * (Len(Ev.after.links) + 2)
+                                    IN /\ Clause("postwalk-le-1", P.best <= Eps /\ P.maxlink <= Eps)
+                                       /\ Clause("postwalk-fwd-eq-bwd", Abs(P.norm - P.bwd) <= Eps)
+                                       /\ Clause("postwalk-same-total", Abs(P.norm - Ev.after.post.norm) <= Eps)
                  ELSE /\ Clause("nbest-hyp-is-lattice-path",
                                 lat.ok => \A i \in DOMAIN Ev.items : HypIsLatticePath(lat.L, Ev.items[i].hyp))
                       /\ Clause("nbest-without-lattice", (~lat.ok) => Ev.items = <<>>)
